@@ -82,6 +82,9 @@ static int parse_flags(const char* s) {
     case 'x': f |= O_EXCL; break;
     case 'd': f |= O_DIRECTORY; break;
     case 'n': f |= O_NOFOLLOW; break;
+    case 'T': f |= O_TMPFILE; break;      /* includes O_DIRECTORY; the path names the directory */
+    case 'p': f |= O_PATH; break;
+    case 'k': f |= O_NONBLOCK; break;
   }
   return f | (acc == 3 ? O_RDWR : acc == 2 ? O_WRONLY : O_RDONLY);
 }
@@ -276,7 +279,15 @@ int main(int argc, char** argv) {
     opno++;
     memset(&req, 0, sizeof req);
 #define IS(name, n) (!strcmp(w[0], name) && nw == (n))
-    if (IS("usleep", 2)) {          /* pacing only (probe for submission/wake-up races); prints nothing route-specific */
+    if (IS("umask", 2)) {            /* process-wide, so it applies to every route alike */
+      umask((mode_t) strtol(A(1), NULL, 8));
+      puts("umask");
+    } else if (IS("linkfd", 3)) {   /* give an O_TMPFILE file a name (raw linkat, not an operation under test) */
+      char pp[64]; int rr;
+      snprintf(pp, sizeof pp, "/proc/self/fd/%d", SLOT(A(1)));
+      rr = SLOT(A(1)) < 0 ? -EBADF : linkat(AT_FDCWD, pp, AT_FDCWD, A(2), AT_SYMLINK_FOLLOW) ? -errno : 0;
+      printf("linkfd %s\n", rs(rr));
+    } else if (IS("usleep", 2)) {          /* pacing only (probe for submission/wake-up races); prints nothing route-specific */
       usleep((useconds_t) atoi(A(1)));
       puts("usleep");
     } else if (IS("open", 5)) {
@@ -285,7 +296,15 @@ int main(int argc, char** argv) {
       else { r = fin(uv_fs_open(loop, &req, A(2), fl, md, CB), &req); uv_fs_req_cleanup(&req); }
       if (SLOT(A(1)) >= 0) close(SLOT(A(1)));
       SLOT(A(1)) = r >= 0 ? (int) r : -1;
-      printf("open %s\n", r >= 0 ? "ok" : rs(r));
+      printf("open %s", r >= 0 ? "ok" : rs(r));
+      if (r >= 0) {   /* what open(2) itself would have produced: type, permission bits (mode & ~umask), status flags */
+        struct stat st; int gf = fcntl((int) r, F_GETFL);
+        if (fstat((int) r, &st) == 0) printf(" type=%c mode=%o nlink=%ld size=%ld", typech(st.st_mode), (unsigned) (st.st_mode & 07777),
+                                             S_ISDIR(st.st_mode) ? 0L : (long) st.st_nlink, S_ISDIR(st.st_mode) ? 0L : (long) st.st_size);
+        else printf(" fstat=%s", rs(-errno));
+        printf(" fl=%x", gf < 0 ? -1 : gf & (O_ACCMODE | O_APPEND | O_NONBLOCK | O_PATH | O_TMPFILE | O_NOFOLLOW));
+      }
+      putchar('\n');
     } else if (IS("close", 2)) {
       int fd = SLOT(A(1));
       if (mode == POSIX) r = perr(close(fd));
@@ -406,7 +425,9 @@ int main(int argc, char** argv) {
                                                                                        : uv_fs_access(loop, &req, A(1), md, CB), &req);
         uv_fs_req_cleanup(&req);
       }
-      printf("%s %s\n", w[0], rs(r));
+      printf("%s %s", w[0], rs(r));
+      if (w[0][0] == 'm' && r == 0) { struct stat st; if (lstat(A(1), &st) == 0) printf(" type=%c mode=%o", typech(st.st_mode), (unsigned) (st.st_mode & 07777)); }
+      putchar('\n');
     } else if (IS("rmdir", 2) || IS("unlink", 2)) {
       if (mode == POSIX) r = perr(w[0][0] == 'r' ? rmdir(A(1)) : unlink(A(1)));
       else { r = fin(w[0][0] == 'r' ? uv_fs_rmdir(loop, &req, A(1), CB) : uv_fs_unlink(loop, &req, A(1), CB), &req); uv_fs_req_cleanup(&req); }
